@@ -27,3 +27,12 @@ package mr
 //@   requires opts != nil
 //@   ensures opts.workers == max(workers, 1)
 //@   modifies opts.workers
+
+// the worker count the mappers run under is the configured one: the mapper context handed to executeMappers carries exactly
+// options.workers (executeMappers sizes its permit pool with it, proved above)
+//@ func mapReduceWithPanicChan
+//@   property C05
+//@   flag callbacks_noheap private_channels
+//@   ghost at after buildOptions#0: bo = ret
+//@   loop 0: invariant true
+//@   call go#1: assert arg_mCtx.workers == bo.workers && arg_mCtx.source == source && arg_mCtx.collector == collector
